@@ -152,6 +152,7 @@ def check(repo, tier="quick"):
     res.rule("C05.b", "provenance of sanctioned content stores: replacement sequence headers come from iter_sequence_headers(codec_features); explicit wavelet_index_ho / dwt_depth_ho are codec_features' own values and the flags are literally True")
     res.rule("C05.c", "encoding-only generators build their source sequence with make_sequence from the configured codec features and a picture generator's output (no pixel values of their own)")
     res.rule("C05.e", "slice-level arithmetic of the generators: no call passes same-named coordinates/sizes to the wrong parameters (sx/sy, width/height), and no size guard is followed by a further decrement of the guarded quantity")
+    res.rule("C05.f", "what surrounds the generators: the sequence header every test case carries encodes the configured video format (table, ordering and guard rules of C15.a-d and the colour-specification rule C15.g re-evaluated), and the model-answer pictures written for a decoder test case are named under the test case and numbered from 0 across all sequences of the stream (C24.d re-evaluated)")
     res.rule("C05.d", "names: generator functions are distinct (file names derive from them); literal sub-case names within one generator are distinct; every listed generator exists")
 
     eff = Effects(repo)
@@ -188,6 +189,25 @@ def check(repo, tier="quick"):
     quantmatrix.rule(repo, res, "C05.e")
     rule_prefix(repo, res, gens)
     rule_field_widths(repo, res, gens)
+    # the header every test case starts with encodes the configured format (C15.a-d, C15.g re-evaluated), and the
+    # model answers written beside each test case are numbered and named as documented (C24.d re-evaluated)
+    from . import c15 as _c15, c24 as _c24
+    from .. import enc_tables as _et
+    from ..report import Ob as _Ob
+
+    _sub = Result("C15")
+    _ot = _et.option_tables(repo)
+    _c15.rule_a(repo, _sub, _ot)
+    _c15.rule_b(repo, _sub, _ot)
+    _c15.rule_c(repo, _sub, _ot)
+    _c15.rule_d(repo, _sub, _ot)
+    _c15.rule_colorspec(repo, _sub)
+    for _o in _sub.obs:
+        res._add(_Ob("C05.f", "%s/%s" % (_o.rule, _o.key), _o.where, _o.status, _o.detail, _o.by, _o.path))
+    for _o in _c24.check(repo, "quick").obs:
+        if _o.rule == "C24.d" and _o.key.startswith("output_decoder_test_case"):
+            res._add(_Ob("C05.f", "%s/%s" % (_o.rule, _o.key), _o.where, _o.status, _o.detail, _o.by, _o.path))
+    res.floor("C05.f", 50)
     lints.rule(repo, res, "C05.e", [n.split("vc2_conformance.", 1)[-1] for n in sorted(repo.modules) if n.startswith("vc2_conformance.test_cases")])
     res.floor("C05.e", 15)
     res.floor("C05.a", 9)
